@@ -94,14 +94,14 @@ theorem learn_step_linked {ctx : LearnCtx} {u u' : UserMap} {m : MapSpec.Map} {k
     lists the phrase under its syllables with exactly the learned frequency and time, and `Layered`
     over any system layers offers it with at least that frequency. -/
 theorem persists_linked (t0 : List Leaf) (h0 : Trie.SnapOk t0) (tmp : Option CFile) (htmp : TmpOk tmp)
-    (acts : List CAct) (hok : ∀ a ∈ acts, CActOk a) (cw : CWorld)
+    (acts : List CAct) (cw : CWorld)
     (hrun : crun (cinit t0 tmp) acts = some cw) (hcl : cw.phase = .closed)
     (u : UserMap) (hu : URep u (MapSpec.Map.run (TrieBuf.baseGet t0) (opsOf acts)))
     (key : List Nat) (x : Text) (hlive : Live u (key, x)) (sys : List Dict) :
     ∃ t, cw.fs .path = some (.complete t) ∧
       (∃ p ∈ TrieBuf.lookupAll (freshSt t) key .standard, p.text = x ∧ u.get? (key, x) = some (MapSpec.valOf p)) ∧
       ∃ p ∈ Layered.lookupAll (sys ++ [TrieBuf.toDict (freshSt t)]) key .standard, p.text = x ∧ 1 ≤ p.freq := by
-  obtain ⟨t, hpath, _, _, _, hlk, _, _⟩ := C10.durable_lookup_linked t0 h0 tmp htmp acts hok cw hrun hcl
+  obtain ⟨t, hpath, _, _, _, hlk, _, _⟩ := C10.durable_lookup_linked t0 h0 tmp htmp acts cw hrun hcl
   obtain ⟨v, hv, h1⟩ := hlive
   have hm : MapSpec.Map.run (TrieBuf.baseGet t0) (opsOf acts) (key, x) = some v := by rw [← hu]; exact hv
   refine ⟨t, hpath, ?_, ?_⟩
@@ -123,7 +123,7 @@ theorem persists_linked (t0 : List Leaf) (h0 : Trie.SnapOk t0) (tmp : Option CFi
 theorem persists_bytes_linked (info : TrieCodec.Info) (hinfo : TrieCodec.ValidInfo info)
     (es0 : List Entry) (hv0 : ∀ e ∈ es0, TrieCodec.ValidEntry e) (hfit0 : C10.FitsInfo info es0)
     (tmp : Option CFile) (htmp : TmpWritten (C10.FitsInfo info) tmp)
-    (acts : List CAct) (hok : ∀ a ∈ acts, CActOk a) (hval : ∀ a ∈ acts, CActValid a)
+    (acts : List CAct) (hval : ∀ a ∈ acts, CActValid a)
     (hfit : SnapshotsOk (C10.FitsInfo info) (cinit (Trie.build es0) tmp) acts)
     (cw : CWorld) (hrun : crun (cinit (Trie.build es0) tmp) acts = some cw) (hcl : cw.phase = .closed)
     (u : UserMap) (hu : URep u (MapSpec.Map.run (TrieBuf.baseGet (Trie.build es0)) (opsOf acts)))
@@ -134,9 +134,9 @@ theorem persists_bytes_linked (info : TrieCodec.Info) (hinfo : TrieCodec.ValidIn
       TrieBuf.lookupAll (freshSt (Trie.build es)) key .standard = dedup (TrieCodec.lookupAll tr key .standard) ∧
       ∃ p ∈ Layered.lookupAll (sys ++ [TrieBuf.toDict (freshSt (Trie.build es))]) key .standard, p.text = x ∧ 1 ≤ p.freq := by
   obtain ⟨es, bytes, tr, hpath, _, hw, hopen, _, _, hlk, _, _, hrd, _⟩ :=
-    C10.durable_lookup_bytes_linked info hinfo es0 hv0 hfit0 tmp htmp acts hok hval hfit cw hrun hcl
+    C10.durable_lookup_bytes_linked info hinfo es0 hv0 hfit0 tmp htmp acts hval hfit cw hrun hcl
   have h0 : Written (C10.FitsInfo info) (Trie.build es0) := ⟨es0, hv0, hfit0, rfl⟩
-  obtain ⟨t, hpath', _, hlay⟩ := persists_linked (Trie.build es0) h0.snapOk tmp htmp.ok acts hok cw hrun hcl u hu key x hlive sys
+  obtain ⟨t, hpath', _, hlay⟩ := persists_linked (Trie.build es0) h0.snapOk tmp htmp.ok acts cw hrun hcl u hu key x hlive sys
   have et : t = Trie.build es := by
     rw [hpath] at hpath'
     simp only [Option.some.injEq, CFile.complete.injEq] at hpath'
